@@ -82,6 +82,12 @@ CLAIMED = {
     text='For generated pairs of geometries over the same region (coarse/fine, column- and layer-refined, shifted, resurfaced, identical, g7 vs refined g7) in all 9 atmosphere combinations and mixed conventions, every target block\'s mapping returned by the real block_mapping is compared with an exhaustive nearest-column / nearest-layer search including the move down to the first layer below ground, existence of the mapped source block, the column mapping and identity of a geometry onto itself; t2incon.transfer_from (with the brute-force mapping handed in) must give every underground block exactly its mapped source state, the atmosphere state per the 3x3 table (copy / broadcast / per-column / average / default), the geometry\'s block order, and leave the source untouched; t2data.transfer_from onto a deep copy of the same geometry must preserve every generator (block, category or name, rate, tables), total generation and rock assignment, with and without total preservation.',
     note='Trusted: brute-force search in vf/props/c19.py; pairs with two source candidates within 1e-6 relative distance are regenerated. Where the source has no single corresponding atmosphere block (target type 0 / source type 1, or source type 2) the mapping of the target atmosphere block is unconstrained except that it must not name a block the source does not have.',
     design='DESIGN.md §3 C19'),
+
+ 'C12': dict(
+    technique='runtime differential monitor: real column_containing_point under every search aid, block_name_containing_point / block_contains_point and column_track against brute force (own winding-number containment over all columns, own parametric segment clipping), on geometries that are moved between query batches',
+    text='On rectangular, locally refined (columns over three orders of magnitude in size), rotated, quarter-turned-with-one-ulp-noise and shipped irregular geometries, generated points (inside, in the bounding box outside the hull, outside the box, level with a node - in particular level with the lower end of a nearly-but-not-exactly level side) are located by the real search under ten aid combinations and compared with exhaustive own containment; 3-D points incl. above the ground of truncated columns, above the model top under a raised surface and below the model are compared with the unique containing block; straight lines are clipped against every column by own code and compared with the real track for membership, order, entry/exit points, abutting and total length, with the documented corner-clip allowance. The same geometry object is translated and rotated between batches.',
+    note='Trusted: vf/oracle/polygeo.py. Points within 1e-6 x local size of an edge and lines through vertices are not generated; quadtrees over subsets use connected patches; the polygon bound is only used when the domain is convex. Known finding: long lines lose clips through the 3-decimal de-duplication in line_polygon_intersections.',
+    design='DESIGN.md §3 C12'),
 }
 
 def main():
